@@ -4,12 +4,12 @@ import time
 from framework.checklib import CorrResult
 from framework import coqrun
 from harness import coqterm as ct, env, gen, wforacle
-from translator import t1_operators
+from translator import t1_operators, t6_converters
 
 ID = 'C02'
-TRANSLATORS = [t1_operators.translate]
+TRANSLATORS = [t1_operators.translate, t6_converters.translate]
 PROPERTY_FILE = 'Properties/C02.v'
-THEOREMS = ['C02_empty_wf', 'C02_step_wf', 'C02_history_wf', 'C02_history_wf_from_empty',
+THEOREMS = ['C02_empty_wf', 'C02_step_wf', 'C02_history_wf', 'C02_history_wf_from_empty', 'C02_into_bench_regenerated_wf',
             'C02_wfb_sound', 'C02_wfb_complete', 'C02_example']
 PARTIAL = {}
 LEVEL_TEXT = ('proved for every modelled public mutator (all 24 constructors of History.op: add_gate/emplace_gate, '
@@ -20,6 +20,8 @@ LEVEL_TEXT = ('proved for every modelled public mutator (all 24 constructors of 
               'returns normally; the executable check wfb used on dumped implementation states is proved equivalent '
               'to WF; code tie by exact correspondence of the full state after every call of generated histories')
 LEVEL_NOTE = ('Coq kernel + vm_compute; hand-written model (Model/Circuit.v, Connect.v, Traverse.v, History.v); translator T1; '
+              'the rewrite rules of into_bench are regenerated from converters.py by translator T6 and proved to have the same '
+              'normal returns as the model (C02_into_bench_regenerated_wf, Properties/C14.v C14_rules_regenerated); '
               'correspondence harness. Hypotheses of the theorems (op_ok): the start state satisfies WF and '
               '"INPUT gates have no operands" (companion invariant, forced: replace_inputs / into_bench / right '
               'connection break WF otherwise); an emplaced INPUT gate has no operands; circuit arguments of '
